@@ -317,6 +317,8 @@ pub struct PortState {
     pub first_read_stall: Option<Duration>,
     /// a port whose driver takes its time to apply settings (`write_settings` blocks this long)
     pub settings_stall: Option<Duration>,
+    /// a line so slow that EVERY read call blocks this long before it delivers (a byte at a time at a few hundred baud)
+    pub read_stall_each: Option<Duration>,
     pub read_calls: usize,
 }
 
@@ -362,6 +364,7 @@ pub fn shared(settings: PortSettings) -> Shared {
         write_stall: None,
         first_read_stall: None,
         settings_stall: None,
+        read_stall_each: None,
         read_calls: 0,
     }))
 }
@@ -454,7 +457,7 @@ impl Read for InstrPort {
         let stall = {
             let mut st = self.st.borrow_mut();
             st.read_calls += 1;
-            if st.read_calls == 1 { st.first_read_stall } else { None }
+            if st.read_calls == 1 { st.first_read_stall } else { st.read_stall_each }
         };
         if let Some(d) = stall {
             std::thread::sleep(d);
